@@ -53,7 +53,7 @@ def buf(n):
 ENC_FORMS = ["secretbox_easy", "secretbox_detached", "secretbox_easy_inplace", "box_detached_afternm",
              "box_detached_afternm_inplace", "box_easy", "box_easy_inplace", "box_detached", "box_detached_inplace",
              "box_seal", "sbobj_encrypt vec", "sbobj_encrypt stack", "sbobj_into_vec x", "boxobj_encrypt vec", "boxobj_encrypt stack",
-             "boxobj_precalc_encrypt vec", "boxobj_precalc_encrypt stack", "boxobj_vecforms x", "sbobj_vecforms x"]
+             "boxobj_precalc_encrypt vec", "boxobj_precalc_encrypt stack", "boxobj_vecforms x", "sbobj_vecforms x", "boxobj_seal vec", "boxobj_seal stack"]
 
 
 def enc_case(form, I):
@@ -62,7 +62,7 @@ def enc_case(form, I):
         key = I.key if not "afternm" in f else I.shared
         line = "%s %s %s %s" % (form, hx(key), hx(I.nonce), hx(I.msg))
         ref = I.sb if key is I.key else I.bx
-    elif f == "box_seal":
+    elif f in ("box_seal", "boxobj_seal"):
         line = "%s %s %s %s" % (form, hx(I.rpk), hx(I.msg), hx(I.esk))
         ref = I.sealed
     else:
